@@ -847,9 +847,22 @@ class Engine:
             S.proving = proving
             return inv(S)
 
+        def oblige_inv(tag, stx, formula, kind):
+            # an invariant may be given as named conjuncts [(name, formula)]: one small obligation each
+            if isinstance(formula, (list, tuple)):
+                for nm, f in formula:
+                    self.oblige('loop%s:%s:%s' % (ordinal, tag, nm), stx, f, kind)
+            else:
+                self.oblige('loop%s:%s' % (ordinal, tag), stx, formula, kind)
+
+        def as_formula(formula):
+            if isinstance(formula, (list, tuple)):
+                return z3.And(*[f for _, f in formula]) if formula else smt.T
+            return formula
+
         # 1. initiation
         st_init = st.fork()
-        self.oblige('loop%s:init' % ordinal, st_init, inv_at(st_init, k0), 'inv-init')
+        oblige_inv('init', st_init, inv_at(st_init, k0), 'inv-init')
 
         # 2. havoc
         stmts = body if body is not None else []
@@ -914,7 +927,7 @@ class Engine:
         if length is not None:
             smt.FOLDS.note_index(length)
         hav.pc.append(k >= 0)
-        hav.pc.append(inv_at(hav, k, proving=False))
+        hav.pc.append(as_formula(inv_at(hav, k, proving=False)))
         if length is not None:
             hav.pc.append(k <= length)
         if elem is not None:
@@ -974,7 +987,7 @@ class Engine:
             for b in bouts:
                 if b.kind in ('normal', 'continue'):
                     stn = b.st.fork()
-                    self.oblige('loop%s:preserved' % ordinal, stn, inv_at(stn, k + 1), 'inv-pres')
+                    oblige_inv('preserved', stn, inv_at(stn, k + 1), 'inv-pres')
                 elif b.kind == 'break':
                     results.append(Outcome('normal', b.st))
                 else:
@@ -1711,6 +1724,9 @@ class Engine:
 
     def bi_list(self, args, kwargs, st, node):
         if not args:
+            h = self.ctx_hook('list_hook', st, None)      # a contract may carry a new empty list in its own model
+            if h is not None:
+                return h
             return [(st, ListV(z3.Empty(smt.ObjSeq)))]
         (x,) = args
         if isinstance(x, SymSeqV):
